@@ -135,7 +135,7 @@ def plan(tier):
     q = tier == "quick"
     specs = []
     for (iw, sw) in WIDTHS[tier]:
-        m = (2 if q else 4) if (iw, sw) == (2, 2) else (1 if q else 2)
+        m = (2 if q else 3) if (iw, sw) == (2, 2) else (1 if (q or (iw, sw) not in ((1, 1), (8, 4))) else 2)
         specs.append(Spec(f"fault-free/M={m}/w{iw}.{sw}", "vf.harness.c02:harness", {"M": m, "id_w": iw, "seq_w": sw},
                           twin_share=0.02, obligations=["mode=0", "mode=1"]))
     specs.append(Spec("fault-free/per-round-pacing/M=1/w2.2", "vf.harness.c02:harness",
@@ -146,7 +146,7 @@ def plan(tier):
 
 BOUNDS = {
     "quick": "fault-free FIFO link; mode x closure x 4 checksum types x PDU CRC flag x immediate/deferred NAK x destination given as file / existing directory / pre-existing file / directory already containing the file, max_file_segment_len None or symbolic, max_packet_len and file size symbolic with at most M=2 segments (widths (2,2)) / M=1 (widths (1,1),(8,4)); pacing: 0..2 extra packet-less state-machine calls per side before every delivery (constant per run), plus a run with an independent 0/1 choice per side in each of the first 3 rounds (CRC-32, plain file); metadata-only put request",
-    "thorough": "all 12 width pairs, M=4 for (2,2), M=2 otherwise",
+    "thorough": "all 12 width pairs, M=3 for (2,2), M=2 for (1,1),(8,4), M=1 otherwise",
 }
 OUTSIDE = "more than M segments (the per-segment step is uniform, but that is an argument, not a verdict); byte-level serialisation is exercised on the concrete representative of sampled paths only; TLV options; request-level mode/closure overrides (C19)"
 FUNCTIONS = ["SourceHandler.put_request/state_machine/get_next_packet (whole sender FSM)", "DestHandler.state_machine/get_next_packet (whole receiver FSM)",
